@@ -114,6 +114,8 @@ type world struct {
 	// otherCookies: how the client's unrelated cookies travel (0 none, 1 same Cookie field before
 	// the affinity cookie, 2 a Cookie field of their own BEFORE the field with the affinity cookie)
 	otherCookies int
+	cookieOpt    roundrobin.CookieOptions // attributes every issued cookie must carry
+	withOpt      bool
 }
 
 // remove takes a member out of the pool the same way it was put in.
@@ -150,7 +152,19 @@ func (w *world) do(c *http.Cookie) (*url.URL, *http.Cookie, int) {
 	var issued *http.Cookie
 	for _, ck := range rec.Result().Cookies() {
 		if ck.Name == "sid" {
+			if issued != nil {
+				w.fail("the response sets the affinity cookie twice: %q", rec.Header().Values("Set-Cookie"))
+			}
 			issued = ck
+		}
+	}
+	if issued != nil {
+		wantPath := "/"
+		if w.cookieOpt.Path != "" {
+			wantPath = w.cookieOpt.Path
+		}
+		if issued.Path != wantPath || issued.Domain != w.cookieOpt.Domain || issued.MaxAge != w.cookieOpt.MaxAge || issued.Secure != w.cookieOpt.Secure || issued.HttpOnly != w.cookieOpt.HTTPOnly || issued.SameSite != w.cookieOpt.SameSite {
+			w.fail("affinity cookie issued as %q, configured attributes are %+v", issued.String(), w.cookieOpt)
 		}
 	}
 	return w.seen, issued, rec.Code
@@ -264,7 +278,17 @@ func TestC11_Sessions(t *testing.T) {
 			}
 			handler = b
 		}
-		ss := roundrobin.NewStickySession("sid").SetCookieValue(w.cd.cv)
+		ss := roundrobin.NewStickySession("sid")
+		withOptions := rapid.IntRange(0, 2).Draw(t, "cookieOptions") == 0
+		opt := roundrobin.CookieOptions{}
+		if withOptions {
+			opt = roundrobin.CookieOptions{HTTPOnly: rapid.Bool().Draw(t, "httpOnly"), Secure: rapid.Bool().Draw(t, "secure"),
+				Path: rapid.SampledFrom([]string{"", "/", "/app"}).Draw(t, "cookiePath"), Domain: rapid.SampledFrom([]string{"", "example.com"}).Draw(t, "cookieDomain"),
+				MaxAge: rapid.SampledFrom([]int{0, 3600}).Draw(t, "maxAge"), SameSite: rapid.SampledFrom([]http.SameSite{0, http.SameSiteLaxMode, http.SameSiteStrictMode}).Draw(t, "sameSite")}
+			ss = roundrobin.NewStickySessionWithOptions("sid", opt)
+		}
+		ss = ss.SetCookieValue(w.cd.cv)
+		w.cookieOpt, w.withOpt = opt, withOptions
 		useRB := rapid.Bool().Draw(t, "rebalancer")
 		if useRB {
 			rr, _ := roundrobin.New(handler)
